@@ -128,6 +128,13 @@ pub fn run_total(job: &Value, t: &mut Trace) -> usize {
                     use flac_codec::metadata::{Application, Cuesheet as Cs, Padding, Picture as Pic, SeekTable, Streaminfo, VorbisComment, read_block, read_blocks, read_info};
                     let info = read_info(Cursor::new(&bytes[..])).ok();
                     let n_iter = read_blocks(Cursor::new(&bytes[..])).take_while(|b| b.is_ok()).count();
+                    // a caller that keeps polling after an error (for / count / collect): the iterator must come to an end - every item
+                    // but the last few consumes at least a block header, so more items than bytes is a loop that never ends (reported
+                    // like a panic: the call has no outcome)
+                    let cap = bytes.len() + 16;
+                    if read_blocks(Cursor::new(&bytes[..])).take(cap + 1).count() > cap {
+                        panic!("HANG: the block iterator yields more than {cap} items over {} bytes and never ends", bytes.len());
+                    }
                     let vc: Option<VorbisComment> = read_block(Cursor::new(&bytes[..])).ok().flatten();
                     let _: Option<SeekTable> = read_block(Cursor::new(&bytes[..])).ok().flatten();
                     let _: Option<Cs> = read_block(Cursor::new(&bytes[..])).ok().flatten();
